@@ -572,16 +572,17 @@ impl Snap {
     /// This remembers the extended item types inserted into the snap, to keep
     /// the snapshot delta smaller.
     pub fn recycle(mut self) -> Builder {
+        // Only remember extended types whose type number the builder could
+        // have handed out itself; a snapshot read from the network can
+        // contain arbitrary ones.
+        self.extended_types
+            .retain(|_, &mut id| OFFSET_EXTENDED_TYPE_ID <= id && id < 0x8000);
+        let mut ids: Vec<u16> = self.extended_types.values().copied().collect();
+        ids.sort_unstable();
         let mut next_type_id = OFFSET_EXTENDED_TYPE_ID;
-        for &key in self.raw.offsets.keys() {
-            let raw_type_id = key_to_raw_type_id(key);
-            let id = key_to_id(key);
-            const _: () = assert!(TYPE_ID_EX == 0);
-            if raw_type_id != TYPE_ID_EX {
-                break;
-            }
+        for id in ids {
             // Make sure we'll have space for at least 256 additional extended types.
-            if id < next_type_id + 256 {
+            if next_type_id <= id && id - next_type_id < 256 {
                 next_type_id = id + 1;
             }
         }
@@ -905,7 +906,9 @@ impl Builder {
                     btree_map::Entry::Vacant(v) => {
                         let raw_type_id = self.next_type_id;
                         assert!(OFFSET_EXTENDED_TYPE_ID <= raw_type_id, "invalid type ID");
-                        assert!(raw_type_id < 0x8000, "invalid type ID");
+                        if raw_type_id >= 0x8000 {
+                            return Err(BuilderError::TooManyItems);
+                        }
                         self.snap.raw.add_item(
                             TYPE_ID_EX,
                             raw_type_id,
